@@ -175,7 +175,7 @@ Section Total.
              ++ apply in_map_iff in Hc. destruct Hc as [a [<- Ha]]. apply (rows_ok cur row a Er Ha).
           -- unfold potential in *. cbn [p_queue p_visited] in *. rewrite Eq in Hpot. cbn [length] in Hpot.
              rewrite (unvis_weight_visit _ _ _ _ _ Ev Er Hsv) in Hpot. rewrite app_length, map_length.
-             unfold adj in *. lia.
+             lia.
           -- exists st'. split; [exact H1 | split; [exact H0 | split; [exact H2 | ] ] ]. cbn [p_count] in H3. split; [lia | intros; lia].
       + exfalso. apply nth_error_None in Ev. lia.
   Qed.
